@@ -31,3 +31,14 @@ Definition run_c16 (ident secret : bytes) (chunks : list (list seg)) : list N :=
   let cs := map expand chunks in
   (per_chunk (aio_data ident secret) [] cs ++ per_chunk (blk_data ident secret) [] cs ++
    per_chunk (tw_data ident secret) [] cs)%list.
+
+(* ---- C20: the reactor's write path ---------------------------------------------------------------- *)
+From HP Require Import Reactor.
+Inductive crev := CPut (f : list seg) | CIterAccept (k : nat) | CIterBlock.
+Definition rev_of (e : crev) : rev_ :=
+  match e with CPut f => Put (expand f) | CIterAccept k => Iter (Accept k) | CIterBlock => Iter WouldBlock end.
+Definition hash_r (s : rstate) : N :=
+  adler (list_byte_of_string (fp (sent s) ++ "|" ++ show_nat (List.length (buffer s)) ++ "|" ++ show_nat (List.length (outbox s)))%string).
+Fixpoint run_reactor_from (s : rstate) (es : list crev) : list N :=
+  match es with [] => [] | e :: t => let s' := rstep s (rev_of e) in hash_r s' :: run_reactor_from s' t end.
+Definition run_reactor (es : list crev) : list N := run_reactor_from rstate0 es.
